@@ -167,6 +167,7 @@ class C04(World):
             st.update({"P": np.array(o.vertices), "F": np.array(o.faces), "T": np.array(o.primitive.transform), "params": {k: np.array(getattr(o.primitive, k)) for k in ("radius", "height", "extents") if hasattr(o.primitive, k)}, "cls": type(o).__name__})
         elif kind == "scene":
             st["world"] = {n: np.array(o.graph[n][0]) for n in o.graph.nodes_geometry}
+            st["edge_meta"] = sorted((str(a), str(b), repr(attr.get("metadata")), str(attr.get("geometry"))) for a, b, attr in o.graph.to_edgelist())
             st["geom"] = {k: (np.array(g.vertices).tobytes(), np.array(getattr(g, "faces", [])).tobytes()) for k, g in o.geometry.items()}
             st["P"] = np.vstack([mx.apply(o.graph[n][0], np.asarray(o.geometry[o.graph[n][1]].vertices)) for n in sorted(o.graph.nodes_geometry)])
         elif kind == "voxel":
@@ -425,6 +426,8 @@ class C04(World):
         elif kind == "scene":
             if a["geom"] != b["geom"]:
                 fail("geometry", "Scene.apply_transform modified geometry arrays")
+            if a.get("edge_meta") != b.get("edge_meta"):
+                fail("attached-edge-data", f"data attached to the edges changed: {a.get('edge_meta')} != {b.get('edge_meta')}")
             for n, W in b["world"].items():
                 if same(a["world"][n], M @ W, tol * scale, n):
                     fail("world-transform", f"node {n}: not M . old")
